@@ -82,6 +82,10 @@ def tasks(tier, seed):
             out[-1]["key"] += "/episode2"
     # one configuration with additional initially-known coalitions
     add(4, [3], 12, "superadditive_cached", "exploitability", "none", "direct", extra_init=[5, 10])
+    # seven players: 119 explorable coalitions (more than one machine word of action indices / bit positions)
+    if tier == "thorough":
+        add(7, [], 126, "superadditive_cached", "l1_norm", "none", "direct")
+        add(7, [125], 95, "superadditive_cached", "exploitability", "sym", "direct")
     return out
 
 
